@@ -38,6 +38,7 @@ def run(ctx):
         ctx.guard("C11", "total-parse", lambda: parser.totality(ctx, prog))
         ctx.guard("C11", "fresh", lambda: parser.symbol_store(ctx, prog))
         ctx.guard("C11", "narrow", lambda: convert.narrowing(ctx, prog))
+        ctx.guard("C11", "panic-pure", lambda: validate.panic_purity(ctx, prog))
         ctx.guard("C11", "casts", lambda: casts.census(ctx, prog, scope=None, floor=15))
     if ctx.tier == "thorough":
         ctx.cfg = "witness"
